@@ -24,10 +24,13 @@ class World(object):
 
   def record(self, kind, sid, payload=None):
     self.history.append((len(self.history), kind, sid, payload))
-    self.sched.log("dev %s s%s" % (kind, sid))
+    if self.sched is not None:
+      self.sched.log("dev %s s%s" % (kind, sid))
 
   def device_call(self, kind):
     s = self.sched
+    if s is None:
+      return                 # used without a scheduler (engine B, C02)
     if s is threads.CURRENT and not s.inert:
       s.yield_point("dev." + kind)
       if self.stall_fn is not None and not s.stalls_off:
